@@ -195,6 +195,28 @@ func runC23(c *core.Ctx) {
 		}
 		c.Check(debit != nil && debit == collected, "C23/fee-debited-is-fee-collected", "executingFailedTransaction", fn.Pos(), "the fee debited is the fee collected (same value)", "the value debited from the sender differs from the value handed to the fee collector")
 	}
+	// a transfer to oneself works on ONE account object: with two separately loaded copies the later save
+	// overwrites the earlier one (the debit, the fee and the nonce increase are lost)
+	if fn := anchorM(c, pkg, "baseTxProcessor", "getAccounts"); fn != nil {
+		ok := false
+		for _, r := range core.Returns(fn) {
+			if !core.NilReturn(r, nil) {
+				continue
+			}
+			same := core.RetOperand(r, 0) == core.RetOperand(r, 1) && !core.IsNilConst(core.RetOperand(r, 0))
+			eq := false
+			for _, f := range core.FactsAt(r.Block()) {
+				if f.Op == "T" && f.A == "bytes.Equal(p1, p2)" {
+					eq = true
+				}
+			}
+			if same && eq {
+				ok = true
+			}
+		}
+		c.Check(ok, "C23/self-transfer-single-object", "baseTxProcessor.getAccounts", fn.Pos(), "when sender and receiver addresses are equal the same account object is returned for both",
+			"getAccounts has no `bytes.Equal(src, dst)` branch returning one account object for both roles: a self-transfer mutates two copies and the receiver copy, saved last, undoes the debit, the fee and the nonce increase")
+	}
 	c.Floor("C23/nonce-exactly-once", 4)
 	c.Floor("C23/mutated-account-saved", 5)
 	c.Floor("C23/fee-debited-is-fee-collected", 4)
